@@ -511,7 +511,26 @@ def all_configs(tier, seed):
     n = 120 if tier == "quick" else 2500
     C += [random_config(rng, i) for i in range(n)]
     C += shifted(C, seed, 40 if tier == "quick" else 500)
+    C += ctor_wired(C, seed, 40 if tier == "quick" else 500)
     return C
+
+
+def ctor_wired(C, seed, n):
+    """the "ctor" family: the same factories wired the other documented way -- every node gets its in_edges / out_edges
+    lists at construction time and the edges are connected afterwards too (as tests/test_machine.py does)"""
+    import copy
+    rng = random.Random("factory-ctor-%d" % seed)
+    valid = [c for c in C if c.get("expect", "valid") == "valid" and not c.get("via") and not c.get("t0") and not c.get("order")]
+    first = [c for c in valid if not c["family"].endswith("/random")]
+    pick = first[::max(1, len(first) // 25)] + rng.sample(valid, min(n, len(valid)))
+    out = []
+    for k, c in enumerate(pick):
+        c = copy.deepcopy(c)
+        c["wiring"] = "ctor"
+        c["name"] = "%s@ctor#%d" % (c["name"], k)
+        c["family"] = "ctor/" + c["family"]
+        out.append(c)
+    return out
 
 
 def shifted(C, seed, n):
